@@ -134,13 +134,22 @@ def runRespWith (wire : Bool) (ws : List String) : String :=
   let toks := parseToks ((kv ws "ev").getD "")
   let bytes := genBody ((kv ws "body").getD "c0") (totalLen toks)
   let kind := (kv ws "kind").getD "full"
+  -- the handler: headers, then `no_chunking(nc)`, then the body constructor
+  let hdrs := hdrs ++ (match optVal ws "hcl" with | some v => [("content-length", v)] | none => [])
+  let head0 : Head := ⟨st, hdrs, false⟩
+  let head1 : Head := match (optVal ws "nc").bind String.toNat? with
+    | some n => builderNoChunking head0 n
+    | none => head0
+  let hs : Head × BodySize := if kind == "streaming" then builderStreaming head1 else (head1, .stream)
+  let head2 := hs.1
   let rb : RespBody :=
     if kind == "none" then ⟨.none, some [], []⟩
     else if kind == "full" then ⟨.sized bytes.length, some bytes, []⟩
     else if kind == "sized" then ⟨.sized bytes.length, none, mkEvs toks bytes⟩
+    else if kind == "streaming" then ⟨hs.2, none, mkEvs toks bytes⟩
     else ⟨.stream, none, mkEvs toks bytes⟩
-  let ct := (optVal ws "ct").bind parseMime
-  let r := compress ae ⟨st, hdrs, false⟩ ct rb
+  let ct := ((hGetAll head2.headers "content-type").head?).bind parseMime
+  let r := compress ae head2 ct rb
   let joins := parseNats ((kv ws "j").getD "")
   let s := initEnc toyCodec r.mode
   let outs := drive toyCodec (fuelFor s r.evs joins) s r.evs joins
@@ -163,7 +172,7 @@ def runRespWith (wire : Bool) (ws : List String) : String :=
       if p.isEmpty then "-" else p
     else "-"
   if wire then
-    let fr := h1Framing r.size r.head.noChunking (optVal ws "hcl")
+    let fr := h1Framing r.size r.head.noChunking ((hGetAll r.head.headers "content-length").head?)
     let sumStr :=
       if isEnc then
         match toyDecode chunks.flatten with
@@ -179,7 +188,7 @@ def runRespWith (wire : Bool) (ws : List String) : String :=
   "st=" ++ toString r.head.status ++
     " ce=" ++ showList (hGetAll r.head.headers "content-encoding") ++
     " vary=" ++ showList (hGetAll r.head.headers "vary") ++
-    " size=" ++ showSize r.size ++ " " ++ bodyStr ++ " path=" ++ pathStr ++ " end=" ++ fin
+    " size=" ++ showSize r.size ++ " nc=" ++ (if r.head.noChunking then "1" else "0") ++ " " ++ bodyStr ++ " path=" ++ pathStr ++ " end=" ++ fin
 
 def runResp (ws : List String) : String := runRespWith false ws
 
